@@ -558,7 +558,7 @@ class ChunkedDataDict(GenericEquality):
             self._dict = mappings.ImmutableDict(d_stream)
             self._global_settings = tuple(g_stream)
         else:
-            self._dict.update(d_stream)
+            self._dict.update((k, list(v)) for k, v in d_stream)
             self._global_settings[:] = list(g_stream)
 
     def render_to_dict(self):
